@@ -1,6 +1,13 @@
 //! Single-file sync (non-recursive) across the three directions. The recursive
 //! path lives in `incremental.rs`; this handles one file at a time.
 
+#[cfg(paiml_copia_verif)]
+#[allow(unused_imports)]
+use copia_simworld::shim::{fs2, std, tokio};
+#[cfg(paiml_copia_verif)]
+#[allow(unused_imports)]
+use copia_simworld::{eprintln, println};
+
 use super::transfer::{format_bytes, transfer_file_to_remote};
 use super::{validate_block_size, FileLocation};
 use copia::async_sync::AsyncCopiaSync;
